@@ -42,14 +42,17 @@ QUERIES = {
 MUTATORS = {
     "to_H": lambda c: c.choose_trigonal_lattice("H"),
     "to_R": lambda c: c.choose_trigonal_lattice("R"),
+    # a request the API refuses (unknown setting name): it raises, and must leave the crystal as it was
+    "to_invalid": lambda c: c.choose_trigonal_lattice("r"),
 }
+REFUSED = ("to_invalid",)
 ALPHABET = list(QUERIES) + list(MUTATORS) + ["deepcopy"]
 NOT_TRIGONAL = ("disorder_P1",)
 
 
 def alphabet_for(kind):
-    """the trigonal switches are only defined for the R-lattice groups (elsewhere they are an error by contract)"""
-    return [op for op in ALPHABET if op not in MUTATORS] if kind in NOT_TRIGONAL else ALPHABET
+    """the same alphabet everywhere; for groups without an R lattice the trigonal switches are refused requests (see step)"""
+    return ALPHABET
 
 
 # ---- projections of exported text through the reference readers ---------------------------------
@@ -300,8 +303,12 @@ def step(part, c, op, hist, kind, check=True):
     if op in MUTATORS:
         try:
             MUTATORS[op](c)
+            if check and (op in REFUSED or kind in NOT_TRIGONAL):
+                part.count("refused_request_accepted")
         except Exception as e:
-            if check:
+            # a refused request (unknown setting name; trigonal switch on a group without an R lattice) raises by contract and
+            # the search simply continues from the state it left behind - which must still answer like a fresh crystal
+            if check and not (op in REFUSED or kind in NOT_TRIGONAL):
                 part.fail("mutator-raise:%s:%s" % (op, kind), "%s raised %r after %s" % (op, e, hist), case)
         if check:
             part.tr()
@@ -414,7 +421,7 @@ def run(ctx):
     max_depth = 8 if ctx.thorough else 6
     cap = 20000 if ctx.thorough else 1500
     ctx.bounds = {"alphabet": ALPHABET, "structures": kinds, "max_depth": max_depth, "state_cap": cap}
-    ctx.rule = ("level-synchronous BFS over operation lists (14 queries with fixed arguments, 2 trigonal switches, deepcopy) on real "
+    ctx.rule = ("level-synchronous BFS over operation lists (14 queries with fixed arguments, 2 trigonal switches, 1 refused request, deepcopy) on real "
                 "Crystal objects; state = digest of vars(obj) recursively (public fields + properties + all memo attributes); every "
                 "transition compares the answer with a freshly built crystal; distinct = canonical states")
     ctx.assumptions = ["methods read only instance state reachable from vars(obj) (so equal digests have equal futures); state shared between objects is "
